@@ -1244,6 +1244,18 @@ func asBool(o Object) Boolean {
 //@ func bNoaccess
 //@ ensures [C02.access.noaccess] result == nil && depth(intp) == old(depth(intp)) && stackFrame(intp, 0)
 
+// C02: "[" and "<<" push a mark like mark does; cvx turns an array into a
+// procedure with the same elements (its own storage in this implementation)
+// and leaves every other operand as it is.
+//@ func bListStart
+//@ ensures [C02.liststart] result == nil && depth(intp) == old(depth(intp)) + 1 && isMark(top(intp, 0)) && stackFrame(intp, 0)
+//@ func bDictStart
+//@ ensures [C02.dictstart] result == nil && depth(intp) == old(depth(intp)) + 1 && isMark(top(intp, 0)) && stackFrame(intp, 0)
+//@ func bCvx
+//@ ensures [C02.cvx.underflow] old(depth(intp)) < 1 ==> isPSErr(result, eStackunderflow) && depth(intp) == old(depth(intp))
+//@ ensures [C02.cvx.array] old(depth(intp)) >= 1 && isType(old(top(intp, 0)), Array) ==> result == nil && depth(intp) == old(depth(intp)) && stackFrame(intp, 1) && isType(top(intp, 0), Procedure) && len(top(intp, 0).(Procedure)) == old(len(top(intp, 0).(Array))) && (forall j :: 0 <= j && j < len(top(intp, 0).(Procedure)) ==> top(intp, 0).(Procedure)[j] == old(top(intp, 0).(Array)[j]))
+//@ ensures [C02.cvx.other] old(depth(intp)) >= 1 && !isType(old(top(intp, 0)), Array) ==> result == nil && depth(intp) == old(depth(intp)) && stackFrame(intp, 0)
+
 // C07: ReadCMap returns a CMap dictionary from the file's CMap directory, and
 // the dictionary it returns carries a CMapName entry; without any CMap in the
 // file the call fails instead of returning an empty result (C13).
